@@ -15,7 +15,7 @@ open Oq3.Gen.Ops (Assoc)
 /-- statements on which the top-level dispatcher `item` parses one statement itself (`opt_item`
 succeeds); on the others it hands the whole rest of the input to the statement loop -/
 def isItem : Stmt → Bool
-  | .assign _ | .exprS _ | .gate _ _ | .measure | .assignMeasure => false
+  | .assign _ | .exprS _ | .gate _ _ | .measure | .assignMeasure | .ret _ => false
   | _ => true
 
 theorem isItem_first (st : Stmt) (h : isItem st = true) (s : P) (htk : Toks s s.pos (toksS st)) :
@@ -34,6 +34,10 @@ theorem isItem_first (st : Stmt) (h : isItem st = true) (s : P) (htk : Toks s s.
   | gate _ _ => cases h
   | measure => cases h
   | assignMeasure => cases h
+  | ret _ => cases h
+  | gateDef ps nq body =>
+    cases ps <;> simp only [toksS, Toks, tk] at htk <;> rw [htk.1] <;>
+      exact ⟨by simp [Oq3.Props.C16.itemFirst, Oq3.Props.C16.itemKeyword], by decide⟩
   | _ =>
     simp only [toksS, Toks, tk] at htk
     rw [htk.1]
@@ -67,7 +71,7 @@ theorem item_rest (g : Nat) (s : P) (hr : Rdy 8 s) (k0 : SyntaxKind) (hk0 : expr
   have hst : s.steps ≤ s.stepLimit := by have := hr.steps; omega
   simp only [exprStmtFirst, Bool.or_eq_true, beq_iff_eq] at hk0
   refine of_ov _ _ _ ?_
-  rcases hk0 with (((((hk | hk) | hk) | hk) | hk) | hk) | hk <;> subst hk <;>
+  rcases hk0 with ((((((hk | hk) | hk) | hk) | hk) | hk) | hk) | hk <;> subst hk <;>
   (sym_eval [filter_base s hpr, contains_base s hpr, h0, hrest]; rfl)
 
 
